@@ -1,7 +1,433 @@
-(** C09 -- proofs about GRModel.v *)
+(** C09 -- proofs about GRModel.v (interlace conversion, region engine, first-write fill). *)
 From Coq Require Import List Arith Bool ZArith Lia.
 Import ListNotations.
 Require Import H4.gen.Gen_GR H4.GRModel.
 
 Lemma il_code_roundtrip_lemma : forall il, il_of_code (il_code il) = Some il.
 Proof. destruct il; reflexivity. Qed.
+
+(* ------------------------------------------------------------------------------------------ *)
+(** * Arithmetic helpers *)
+
+Lemma divmod_unique : forall b q r, r < b -> (q * b + r) / b = q /\ (q * b + r) mod b = r.
+Proof.
+  intros b q r H. split.
+  - symmetry. apply (Nat.div_unique (q * b + r) b q r); lia.
+  - symmetry. apply (Nat.mod_unique (q * b + r) b q r); lia.
+Qed.
+
+Lemma div_of : forall b q r, r < b -> (q * b + r) / b = q.
+Proof. intros. apply divmod_unique; auto. Qed.
+Lemma mod_of : forall b q r, r < b -> (q * b + r) mod b = r.
+Proof. intros. apply divmod_unique; auto. Qed.
+
+(* ------------------------------------------------------------------------------------------ *)
+(** * The three index functions are bijections onto [0, X*Y*nc) *)
+
+Lemma il_index_lt_lemma : forall il X Y nc y x c,
+    y < Y -> x < X -> c < nc -> il_index il X Y nc y x c < X * Y * nc.
+Proof.
+  intros il X Y nc y x c Hy Hx Hc. destruct il; simpl.
+  - assert (y * X + x + 1 <= Y * X) by nia. nia.
+  - assert (y * nc + c + 1 <= Y * nc) by nia. nia.
+  - assert (c * Y + y + 1 <= nc * Y) by nia. nia.
+Qed.
+
+Lemma il_decode_index_lemma : forall il X Y nc y x c,
+    y < Y -> x < X -> c < nc -> il_decode il X Y nc (il_index il X Y nc y x c) = (y, x, c).
+Proof.
+  intros il X Y nc y x c Hy Hx Hc. destruct il; simpl.
+  - replace ((y * X + x) * nc + c) with (y * (X * nc) + (x * nc + c)) at 1 by ring.
+    rewrite div_of by nia.
+    rewrite (div_of nc (y * X + x) c) by lia.
+    rewrite (mod_of X y x) by lia.
+    rewrite (mod_of nc (y * X + x) c) by lia. reflexivity.
+  - replace ((y * nc + c) * X + x) with (y * (nc * X) + (c * X + x)) at 1 by ring.
+    rewrite div_of by nia.
+    rewrite (mod_of X (y * nc + c) x) by lia.
+    rewrite (div_of X (y * nc + c) x) by lia.
+    rewrite (mod_of nc y c) by lia. reflexivity.
+  - rewrite (div_of X (c * Y + y) x) by lia.
+    rewrite (mod_of Y c y) by lia.
+    rewrite (mod_of X (c * Y + y) x) by lia.
+    replace ((c * Y + y) * X + x) with (c * (Y * X) + (y * X + x)) by ring.
+    rewrite div_of by nia. reflexivity.
+Qed.
+
+Lemma il_index_decode_lemma : forall il X Y nc q,
+    q < X * Y * nc ->
+    let '(y, x, c) := il_decode il X Y nc q in
+    y < Y /\ x < X /\ c < nc /\ il_index il X Y nc y x c = q.
+Proof.
+  intros il X Y nc q Hq.
+  assert (HX : X <> 0) by (intro; subst; simpl in Hq; lia).
+  assert (HY : Y <> 0) by (intro; subst; rewrite Nat.mul_0_r in Hq; simpl in Hq; lia).
+  assert (Hn : nc <> 0) by (intro; subst; rewrite Nat.mul_0_r in Hq; lia).
+  destruct il; simpl.
+  - repeat split.
+    + apply Nat.div_lt_upper_bound; nia.
+    + apply Nat.mod_upper_bound; auto.
+    + apply Nat.mod_upper_bound; auto.
+    + rewrite (Nat.mul_comm X nc), <- Nat.div_div by auto.
+      pose proof (Nat.div_mod q nc Hn). pose proof (Nat.div_mod (q / nc) X HX). nia.
+  - repeat split.
+    + apply Nat.div_lt_upper_bound; nia.
+    + apply Nat.mod_upper_bound; auto.
+    + apply Nat.mod_upper_bound; auto.
+    + rewrite (Nat.mul_comm nc X), <- Nat.div_div by auto.
+      pose proof (Nat.div_mod q X HX). pose proof (Nat.div_mod (q / X) nc Hn). nia.
+  - repeat split.
+    + apply Nat.mod_upper_bound; auto.
+    + apply Nat.mod_upper_bound; auto.
+    + apply Nat.div_lt_upper_bound; nia.
+    + rewrite (Nat.mul_comm Y X), <- Nat.div_div by auto.
+      pose proof (Nat.div_mod q X HX). pose proof (Nat.div_mod (q / X) Y HY). nia.
+Qed.
+
+Lemma il_index_inj_lemma : forall il X Y nc y x c y' x' c',
+    y < Y -> x < X -> c < nc -> y' < Y -> x' < X -> c' < nc ->
+    il_index il X Y nc y x c = il_index il X Y nc y' x' c' -> (y, x, c) = (y', x', c').
+Proof.
+  intros. rewrite <- (il_decode_index_lemma il X Y nc y x c), <- (il_decode_index_lemma il X Y nc y' x' c') by auto.
+  congruence.
+Qed.
+
+Lemma il_index_bijective_lemma : forall il X Y nc,
+    (forall y x c, y < Y -> x < X -> c < nc -> il_index il X Y nc y x c < X * Y * nc) /\
+    (forall y x c y' x' c', y < Y -> x < X -> c < nc -> y' < Y -> x' < X -> c' < nc ->
+                            il_index il X Y nc y x c = il_index il X Y nc y' x' c' -> (y, x, c) = (y', x', c')) /\
+    (forall q, q < X * Y * nc -> exists y x c, y < Y /\ x < X /\ c < nc /\ il_index il X Y nc y x c = q) /\
+    (forall y x c, y < Y -> x < X -> c < nc -> il_decode il X Y nc (il_index il X Y nc y x c) = (y, x, c)).
+Proof.
+  intros. split; [|split; [|split]].
+  - intros. apply il_index_lt_lemma; auto.
+  - intros. eapply il_index_inj_lemma; eauto.
+  - intros q Hq. pose proof (il_index_decode_lemma il X Y nc q Hq) as H.
+    destruct (il_decode il X Y nc q) as [[y x] c]. exists y, x, c. exact H.
+  - intros. apply il_decode_index_lemma; auto.
+Qed.
+
+(* ------------------------------------------------------------------------------------------ *)
+(** * The pointer walk visits exactly the closed-form indices *)
+
+Lemma vadd_map : forall (f g : nat -> nat) l, vadd (map f l) (map g l) = map (fun i => f i + g i) l.
+Proof. intros f g l. unfold vadd. induction l; simpl; auto. f_equal. exact IHl. Qed.
+
+Lemma combine_map2 : forall (f g : nat -> nat) l, combine (map f l) (map g l) = map (fun i => (f i, g i)) l.
+Proof. intros f g l. induction l; simpl; auto. f_equal. exact IHl. Qed.
+
+Lemma walk_row_spec : forall (fi fo : nat -> nat -> nat) (ai ao : nat -> nat) l n x0,
+    (forall x c, fi (S x) c = fi x c + ai c) -> (forall x c, fo (S x) c = fo x c + ao c) ->
+    walk_row n (map (fi x0) l) (map (fo x0) l) (map ai l) (map ao l) =
+    (flat_map (fun x => map (fun c => (fi x c, fo x c)) l) (seq x0 n),
+     (map (fi (x0 + n)) l, map (fo (x0 + n)) l)).
+Proof.
+  intros fi fo ai ao l n. induction n; intros x0 Hi Ho; simpl.
+  - rewrite Nat.add_0_r. reflexivity.
+  - rewrite !vadd_map.
+    rewrite (map_ext (fun i : nat => fi x0 i + ai i) (fi (S x0))) by (intros; symmetry; apply Hi).
+    rewrite (map_ext (fun i : nat => fo x0 i + ao i) (fo (S x0))) by (intros; symmetry; apply Ho).
+    rewrite IHn by auto. rewrite combine_map2.
+    replace (S x0 + n) with (x0 + S n) by lia. reflexivity.
+Qed.
+
+Lemma walk_rows_spec : forall (Fi Fo : nat -> nat -> nat -> nat) (ai ao li lo : nat -> nat) l X (wrap : bool) n y0,
+    (forall y x c, Fi y (S x) c = Fi y x c + ai c) -> (forall y x c, Fo y (S x) c = Fo y x c + ao c) ->
+    (forall y c, (if wrap then Fi y X c + li c else Fi y X c) = Fi (S y) 0 c) ->
+    (forall y c, (if wrap then Fo y X c + lo c else Fo y X c) = Fo (S y) 0 c) ->
+    walk_rows n X wrap (map (Fi y0 0) l) (map (Fo y0 0) l) (map ai l) (map ao l) (map li l) (map lo l) =
+    flat_map (fun y => flat_map (fun x => map (fun c => (Fi y x c, Fo y x c)) l) (seq 0 X)) (seq y0 n).
+Proof.
+  intros Fi Fo ai ao li lo l X wrap n. induction n; intros y0 Hi Ho Hli Hlo; simpl; auto.
+  rewrite (walk_row_spec (Fi y0) (Fo y0) ai ao l X 0) by auto. simpl.
+  f_equal.
+  assert (E1 : (if wrap then vadd (map (Fi y0 X) l) (map li l) else map (Fi y0 X) l) = map (Fi (S y0) 0) l).
+  { destruct wrap.
+    - rewrite vadd_map. apply map_ext. intros c. apply (Hli y0 c).
+    - apply map_ext. intros c. apply (Hli y0 c). }
+  assert (E2 : (if wrap then vadd (map (Fo y0 X) l) (map lo l) else map (Fo y0 X) l) = map (Fo (S y0) 0) l).
+  { destruct wrap.
+    - rewrite vadd_map. apply map_ext. intros c. apply (Hlo y0 c).
+    - apply map_ext. intros c. apply (Hlo y0 c). }
+  rewrite E1, E2. apply IHn; auto.
+Qed.
+
+Lemma il_code_pixel : il_code ILpixel = 0. Proof. reflexivity. Qed.
+Lemma il_code_line : il_code ILline = 1. Proof. reflexivity. Qed.
+Lemma il_code_comp : il_code ILcomp = 2. Proof. reflexivity. Qed.
+
+(** the trace as a list over all (row, column, component) triples *)
+Definition triples (X Y nc : nat) : list (nat * (nat * nat)) :=
+  list_prod (seq 0 Y) (list_prod (seq 0 X) (seq 0 nc)).
+
+Definition il_trace_closed (inil outil : ilace) (X Y nc cs : nat) : list (nat * nat) :=
+  map (fun t => let '(y, (x, c)) := t in (cs * il_index inil X Y nc y x c, cs * il_index outil X Y nc y x c))
+      (triples X Y nc).
+
+Lemma flat_map_list_prod2 : forall {T} (h : nat -> nat -> T) xs cs,
+    flat_map (fun x => map (fun c => h x c) cs) xs = map (fun t => let '(x, c) := t in h x c) (list_prod xs cs).
+Proof.
+  intros T h xs cs. induction xs as [|x xs IHx]; simpl; auto.
+  rewrite map_app, IHx. f_equal. rewrite map_map. reflexivity.
+Qed.
+
+Lemma flat_map_list_prod : forall {T} (g : nat -> nat -> nat -> T) ys xs cs,
+    flat_map (fun y => flat_map (fun x => map (fun c => g y x c) cs) xs) ys =
+    map (fun t => let '(y, (x, c)) := t in g y x c) (list_prod ys (list_prod xs cs)).
+Proof.
+  intros T g ys xs cs. induction ys as [|y ys IH]; simpl; auto.
+  rewrite map_app, IH. f_equal.
+  rewrite map_map. rewrite (flat_map_list_prod2 (g y)). apply map_ext. intros [x c]. reflexivity.
+Qed.
+
+Lemma il_walk_eq_index_lemma : forall inil outil X Y nc cs,
+    1 <= nc -> il_walk_trace inil outil X Y nc cs = il_trace_closed inil outil X Y nc cs.
+Proof.
+  intros inil outil X Y nc cs Hnc. unfold il_walk_trace, il_trace_closed, triples.
+  rewrite <- (flat_map_list_prod (fun y x c => (cs * il_index inil X Y nc y x c, cs * il_index outil X Y nc y x c))).
+  unfold ilc_loop_outer, ilc_loop_mid.
+  set (Fi := fun y x c => cs * il_index inil X Y nc y x c).
+  set (Fo := fun y x c => cs * il_index outil X Y nc y x c).
+  rewrite (map_ext (fun i : nat => ilc_in_comp_ptr (il_code inil) i cs (cs * nc) nc X Y) (Fi 0 0)).
+  2:{ intros c. unfold Fi. destruct inil; simpl; ring. }
+  rewrite (map_ext (fun i : nat => ilc_out_comp_ptr (il_code outil) i cs (cs * nc) nc X Y) (Fo 0 0)).
+  2:{ intros c. unfold Fo. destruct outil; simpl; ring. }
+  apply (walk_rows_spec Fi Fo).
+  - intros y x c. unfold Fi. destruct inil; simpl; ring.
+  - intros y x c. unfold Fo. destruct outil; simpl; ring.
+  - intros y c. unfold Fi. destruct inil, outil; simpl; try ring; nia.
+  - intros y c. unfold Fo. destruct inil, outil; simpl; try ring; nia.
+Qed.
+
+(* ------------------------------------------------------------------------------------------ *)
+(** * memcpy and the application of a trace *)
+
+Lemma nth_firstn_lt : forall {A} (l : list A) n i d, i < n -> nth i (firstn n l) d = nth i l d.
+Proof.
+  intros A l. induction l; intros n i d H; destruct n, i; simpl; auto; try lia. apply IHl. lia.
+Qed.
+
+Lemma nth_skipn_add : forall {A} (l : list A) n i d, nth i (skipn n l) d = nth (n + i) l d.
+Proof.
+  intros A l. induction l; intros n i d; destruct n; simpl; auto. destruct i; auto.
+Qed.
+
+Lemma memcpy_at_length : forall {A} (src dst : list A) s d n,
+    s + n <= length src -> d + n <= length dst -> length (memcpy_at src s dst d n) = length dst.
+Proof.
+  intros. unfold memcpy_at. rewrite !app_length, !firstn_length, !skipn_length. lia.
+Qed.
+
+Lemma memcpy_at_nth_in : forall {A} (src dst : list A) s d n b def,
+    s + n <= length src -> d + n <= length dst -> b < n ->
+    nth (d + b) (memcpy_at src s dst d n) def = nth (s + b) src def.
+Proof.
+  intros A src dst s d n b def Hs Hd Hb. unfold memcpy_at.
+  rewrite app_nth2 by (rewrite firstn_length; lia).
+  rewrite firstn_length, Nat.min_l by lia.
+  replace (d + b - d) with b by lia.
+  rewrite app_nth1 by (rewrite firstn_length, skipn_length; lia).
+  rewrite nth_firstn_lt by auto. apply nth_skipn_add.
+Qed.
+
+Lemma memcpy_at_nth_out : forall {A} (src dst : list A) s d n p def,
+    s + n <= length src -> d + n <= length dst -> p < d \/ d + n <= p ->
+    nth p (memcpy_at src s dst d n) def = nth p dst def.
+Proof.
+  intros A src dst s d n p def Hs Hd Hp. unfold memcpy_at. destruct Hp as [Hp|Hp].
+  - rewrite app_nth1 by (rewrite firstn_length; lia). apply nth_firstn_lt; auto.
+  - rewrite app_nth2 by (rewrite firstn_length; lia).
+    rewrite firstn_length, Nat.min_l by lia.
+    rewrite app_nth2 by (rewrite firstn_length, skipn_length; lia).
+    rewrite firstn_length, skipn_length, Nat.min_l by lia.
+    rewrite nth_skipn_add. f_equal. lia.
+Qed.
+
+Section ApplyTrace.
+  Context {A T : Type}.
+  Variables (n : nat) (src : list A) (fa fb : T -> nat) (def : A).
+  Definition mk_tr (ts : list T) := map (fun t => (n * fa t, n * fb t)) ts.
+
+  Lemma apply_trace_length : forall ts dst,
+      (forall t, In t ts -> n * fa t + n <= length src /\ n * fb t + n <= length dst) ->
+      length (apply_trace n src (mk_tr ts) dst) = length dst.
+  Proof.
+    induction ts as [|t ts IH]; intros dst H; simpl; auto.
+    unfold apply_trace in *. simpl. rewrite IH.
+    - apply memcpy_at_length; apply H; left; auto.
+    - intros t' Ht'. rewrite memcpy_at_length by (apply H; left; auto). apply H. right; auto.
+  Qed.
+
+  Lemma apply_trace_untouched : forall ts dst k b,
+      (forall t, In t ts -> n * fa t + n <= length src /\ n * fb t + n <= length dst) ->
+      (forall t, In t ts -> fb t <> k) -> b < n ->
+      nth (n * k + b) (apply_trace n src (mk_tr ts) dst) def = nth (n * k + b) dst def.
+  Proof.
+    induction ts as [|t ts IH]; intros dst k b H Hk Hb; simpl; auto.
+    unfold apply_trace in *. simpl. rewrite IH; auto.
+    - apply memcpy_at_nth_out; try (apply H; left; auto).
+      assert (fb t <> k) by (apply Hk; left; auto). nia.
+    - intros t' Ht'. rewrite memcpy_at_length by (apply H; left; auto). apply H. right; auto.
+    - intros t' Ht'. apply Hk. right; auto.
+  Qed.
+
+  (** every copy of the trace is visible in the result, provided equal destinations have equal sources *)
+  Lemma apply_trace_nth : forall ts dst t b,
+      (forall t, In t ts -> n * fa t + n <= length src /\ n * fb t + n <= length dst) ->
+      (forall t t', In t ts -> In t' ts -> fb t = fb t' -> fa t = fa t') ->
+      In t ts -> b < n ->
+      nth (n * fb t + b) (apply_trace n src (mk_tr ts) dst) def = nth (n * fa t + b) src def.
+  Proof.
+    induction ts as [|t0 ts IH]; intros dst t b H Hf Ht Hb; [destruct Ht|].
+    assert (Hlen : length (memcpy_at src (n * fa t0) dst (n * fb t0) n) = length dst)
+      by (apply memcpy_at_length; apply H; left; auto).
+    assert (H' : forall t, In t ts -> n * fa t + n <= length src /\
+                                     n * fb t + n <= length (memcpy_at src (n * fa t0) dst (n * fb t0) n)).
+    { intros t' Ht'. rewrite Hlen. apply H. right; auto. }
+    destruct (in_dec Nat.eq_dec (fb t) (map fb ts)) as [Hin|Hnin].
+    - apply in_map_iff in Hin. destruct Hin as [t' [E Ht']].
+      unfold apply_trace. simpl. fold (mk_tr ts).
+      change (fold_left (fun o sd => memcpy_at src (fst sd) o (snd sd) n) (mk_tr ts)
+                        (memcpy_at src (n * fa t0) dst (n * fb t0) n))
+        with (apply_trace n src (mk_tr ts) (memcpy_at src (n * fa t0) dst (n * fb t0) n)).
+      rewrite <- E. rewrite (IH _ t' b); auto.
+      + f_equal. f_equal. f_equal. apply Hf; auto. right; auto.
+      + intros a a' Ha Ha'. apply Hf; right; auto.
+    - assert (t = t0 \/ (In t ts)) as [->|Ht'] by (destruct Ht; auto).
+      + unfold apply_trace. simpl.
+        change (fold_left (fun o sd => memcpy_at src (fst sd) o (snd sd) n) (mk_tr ts)
+                          (memcpy_at src (n * fa t0) dst (n * fb t0) n))
+          with (apply_trace n src (mk_tr ts) (memcpy_at src (n * fa t0) dst (n * fb t0) n)).
+        rewrite apply_trace_untouched; auto.
+        * apply memcpy_at_nth_in; auto; apply H; left; auto.
+        * intros t' Ht' E. apply Hnin. rewrite <- E. apply in_map. auto.
+      + exfalso. apply Hnin. apply in_map. auto.
+  Qed.
+End ApplyTrace.
+
+(* ------------------------------------------------------------------------------------------ *)
+(** * GRIil_convert (pointer walk) = closed-form specification *)
+
+Lemma in_triples : forall X Y nc y x c, In (y, (x, c)) (triples X Y nc) <-> y < Y /\ x < X /\ c < nc.
+Proof.
+  intros. unfold triples. rewrite !in_prod_iff, !in_seq. lia.
+Qed.
+
+Lemma same_cond_eqb : forall a b, ilc_same_cond (il_code a) (il_code b) = il_eqb a b.
+Proof. destruct a, b; reflexivity. Qed.
+
+Lemma il_eqb_eq : forall a b, il_eqb a b = true <-> a = b.
+Proof. destruct a, b; simpl; split; intro H; try reflexivity; try discriminate. Qed.
+
+Definition fidx (il : ilace) (X Y nc : nat) (t : nat * (nat * nat)) : nat :=
+  let '(y, (x, c)) := t in il_index il X Y nc y x c.
+
+Lemma il_trace_closed_mk : forall inil outil X Y nc cs,
+    il_trace_closed inil outil X Y nc cs = mk_tr cs (fidx inil X Y nc) (fidx outil X Y nc) (triples X Y nc).
+Proof. intros. unfold il_trace_closed, mk_tr. apply map_ext. intros [y [x c]]. reflexivity. Qed.
+
+Lemma fidx_bounds : forall inil outil X Y nc cs (A : Type) (src dst : list A) t,
+    length src = X * Y * nc * cs -> length dst = X * Y * nc * cs -> In t (triples X Y nc) ->
+    cs * fidx inil X Y nc t + cs <= length src /\ cs * fidx outil X Y nc t + cs <= length dst.
+Proof.
+  intros inil outil X Y nc cs A src dst [y [x c]] Hs Hd Ht. apply in_triples in Ht. destruct Ht as (Hy & Hx & Hc).
+  pose proof (il_index_lt_lemma inil X Y nc y x c Hy Hx Hc).
+  pose proof (il_index_lt_lemma outil X Y nc y x c Hy Hx Hc). simpl. nia.
+Qed.
+
+Lemma fidx_functional : forall inil outil X Y nc t t',
+    In t (triples X Y nc) -> In t' (triples X Y nc) ->
+    fidx outil X Y nc t = fidx outil X Y nc t' -> fidx inil X Y nc t = fidx inil X Y nc t'.
+Proof.
+  intros inil outil X Y nc [y [x c]] [y' [x' c']] Ht Ht' E.
+  apply in_triples in Ht. apply in_triples in Ht'. simpl in E.
+  destruct Ht as (Hy & Hx & Hc). destruct Ht' as (Hy' & Hx' & Hc').
+  pose proof (il_index_inj_lemma outil X Y nc y x c y' x' c' Hy Hx Hc Hy' Hx' Hc' E) as E'.
+  inversion E'; subst. reflexivity.
+Qed.
+
+Lemma il_convert_length_lemma : forall {A} inil outil X Y nc cs (src dst : list A),
+    1 <= nc -> length src = X * Y * nc * cs -> length dst = X * Y * nc * cs ->
+    length (il_convert_walk inil outil X Y nc cs src dst) = X * Y * nc * cs.
+Proof.
+  intros A inil outil X Y nc cs src dst Hnc Hs Hd. unfold il_convert_walk.
+  destruct (ilc_same_cond _ _).
+  - unfold ilc_same_len. rewrite memcpy_at_length; auto; nia.
+  - rewrite il_walk_eq_index_lemma by auto. unfold ilc_copy_len. rewrite il_trace_closed_mk.
+    rewrite apply_trace_length; auto.
+    intros t Ht. eapply fidx_bounds; eauto.
+Qed.
+
+Lemma nth_map_seq : forall {B} (f : nat -> B) M q d, q < M -> nth q (map f (seq 0 M)) d = f q.
+Proof.
+  intros B f M q d H. rewrite (nth_indep _ d (f 0)) by (rewrite map_length, seq_length; auto).
+  rewrite map_nth. rewrite seq_nth by auto. reflexivity.
+Qed.
+
+Lemma il_convert_correct_lemma : forall {A} (d : A) inil outil X Y nc cs (src dst : list A),
+    1 <= nc -> 1 <= cs -> length src = X * Y * nc * cs -> length dst = X * Y * nc * cs ->
+    il_convert_walk inil outil X Y nc cs src dst = il_convert_spec d inil outil X Y nc cs src.
+Proof.
+  intros A d inil outil X Y nc cs src dst Hnc Hcs Hs Hd.
+  apply (nth_ext _ _ d d).
+  - rewrite il_convert_length_lemma by auto. unfold il_convert_spec. rewrite map_length, seq_length. reflexivity.
+  - rewrite il_convert_length_lemma by auto. intros q Hq.
+    unfold il_convert_spec. rewrite nth_map_seq by auto.
+    assert (Hk : q / cs < X * Y * nc) by (apply Nat.div_lt_upper_bound; nia).
+    assert (Hb : q mod cs < cs) by (apply Nat.mod_upper_bound; lia).
+    assert (Eq : q = cs * (q / cs) + q mod cs) by (apply Nat.div_mod; lia).
+    pose proof (il_index_decode_lemma outil X Y nc (q / cs) Hk) as Hdec.
+    destruct (il_decode outil X Y nc (q / cs)) as [[y x] c]. destruct Hdec as (Hy & Hx & Hc & Eidx).
+    unfold il_convert_walk. rewrite same_cond_eqb.
+    destruct (il_eqb inil outil) eqn:E.
+    + apply il_eqb_eq in E. subst outil. rewrite Eidx. rewrite <- Eq.
+      unfold ilc_same_len. apply (memcpy_at_nth_in src dst 0 0 (X * Y * (cs * nc)) q d); nia.
+    + rewrite il_walk_eq_index_lemma by auto. unfold ilc_copy_len. rewrite il_trace_closed_mk.
+      rewrite Eq at 1. rewrite <- Eidx.
+      change (il_index outil X Y nc y x c) with (fidx outil X Y nc (y, (x, c))).
+      change (il_index inil X Y nc y x c) with (fidx inil X Y nc (y, (x, c))).
+      apply apply_trace_nth; auto.
+      * intros t Ht. eapply fidx_bounds; eauto.
+      * intros t t' Ht Ht'. apply fidx_functional; auto.
+      * apply in_triples. auto.
+Qed.
+
+(** converting there and back is the identity *)
+Lemma il_spec_inverse_lemma : forall {A} (d : A) a b X Y nc cs (buf : list A),
+    1 <= cs -> length buf = X * Y * nc * cs ->
+    il_convert_spec d b a X Y nc cs (il_convert_spec d a b X Y nc cs buf) = buf.
+Proof.
+  intros A d a b X Y nc cs buf Hcs Hl.
+  apply (nth_ext _ _ d d).
+  - unfold il_convert_spec. rewrite map_length, seq_length. auto.
+  - intros q Hq. unfold il_convert_spec at 1 in Hq. rewrite map_length, seq_length in Hq.
+    unfold il_convert_spec at 1. rewrite nth_map_seq by auto.
+    assert (Hk : q / cs < X * Y * nc) by (apply Nat.div_lt_upper_bound; nia).
+    assert (Hb : q mod cs < cs) by (apply Nat.mod_upper_bound; lia).
+    assert (Eq : q = cs * (q / cs) + q mod cs) by (apply Nat.div_mod; lia).
+    pose proof (il_index_decode_lemma a X Y nc (q / cs) Hk) as Hdec.
+    destruct (il_decode a X Y nc (q / cs)) as [[y x] c]. destruct Hdec as (Hy & Hx & Hc & Eidx).
+    pose proof (il_index_lt_lemma b X Y nc y x c Hy Hx Hc) as Hlt.
+    unfold il_convert_spec. rewrite nth_map_seq by nia.
+    replace ((cs * il_index b X Y nc y x c + q mod cs) / cs) with (il_index b X Y nc y x c)
+      by (rewrite (Nat.mul_comm cs); symmetry; apply div_of; auto).
+    replace ((cs * il_index b X Y nc y x c + q mod cs) mod cs) with (q mod cs)
+      by (rewrite (Nat.mul_comm cs); symmetry; apply mod_of; auto).
+    rewrite il_decode_index_lemma by auto. rewrite Eidx, <- Eq. reflexivity.
+Qed.
+
+Lemma il_convert_inverse_lemma : forall {A} a b X Y nc cs (buf t1 t2 : list A),
+    1 <= nc -> 1 <= cs -> length buf = X * Y * nc * cs -> length t1 = X * Y * nc * cs -> length t2 = X * Y * nc * cs ->
+    il_convert_walk b a X Y nc cs (il_convert_walk a b X Y nc cs buf t1) t2 = buf.
+Proof.
+  intros A a b X Y nc cs buf t1 t2 Hnc Hcs Hl H1 H2.
+  destruct buf as [|d0 buf'] eqn:Eb.
+  - assert (Z : X * Y * nc * cs = 0) by (simpl in Hl; lia).
+    assert (length (il_convert_walk b a X Y nc cs (il_convert_walk a b X Y nc cs [] t1) t2) = 0).
+    { rewrite il_convert_length_lemma; auto. rewrite il_convert_length_lemma; auto. }
+    destruct (il_convert_walk b a X Y nc cs (il_convert_walk a b X Y nc cs [] t1) t2); simpl in *; auto; lia.
+  - rewrite <- Eb in *. rewrite (il_convert_correct_lemma d0 a b) by auto.
+    rewrite (il_convert_correct_lemma d0 b a); auto.
+    + apply il_spec_inverse_lemma; auto.
+    + unfold il_convert_spec. rewrite map_length, seq_length. reflexivity.
+Qed.
